@@ -39,6 +39,8 @@ type Obligation struct {
 	ModelNames []string
 	ReplayTemplate string
 	ModelValues map[string]string
+	Candidate string // model of the quantifier-free weakening (only a candidate input)
+	CandidateValues map[string]string
 }
 
 type Engine struct {
